@@ -180,7 +180,8 @@ func c19Run(c *core.Ctx) {
 	markers := []string{"[Content_Types].xml", "word/document.xml", "word/", "xl/workbook.xml", "ppt/presentation.xml", "META-INF/MANIFEST.MF", "AndroidManifest.xml", "classes.dex", "resources.arsc", "res/drawable/x.png"}
 	book := []string{"_rels/.rels", "docProps/app.xml", "docProps/core.xml", "customXml/item1.xml", "[trash]/0000.dat"}
 	near := []string{"Word/document.xml", "words/a.xml", "xword/document.xml", "xl", "pptx/p.xml", "META-INF/MANIFEST.MF.bak", "meta-inf/manifest.mf", "mimetypes"}
-	other := []string{"README.txt", "index.html", "images/logo.png", "a.txt", "src/main/java/App.java", "d/"}
+	// "PK" alone is not a zip signature: names (and bodies, below) may contain it
+	other := []string{"README.txt", "index.html", "images/logo.png", "a.txt", "src/main/java/App.java", "d/", "customXml/PKG-INFO", "PK"}
 	var menu []string
 	menu = append(menu, markers...)
 	menu = append(menu, book...)
@@ -194,7 +195,7 @@ func c19Run(c *core.Ctx) {
 	c.Info("menu", fmt.Sprint(len(menu)))
 	text400 := bytes.Repeat([]byte("Lorem ipsum dolor sit amet, consectetur. "), 10)[:400]
 	text2k := bytes.Repeat([]byte("<Override PartName=\"/word/x.xml\" ContentType=\"application/xml\"/>"), 32)
-	bodies := [][]byte{nil, []byte("0123456789 abcdefghijklmnopqrstuvw"), text400, text2k}
+	bodies := [][]byte{nil, []byte("0123456789 abcdefghijklmnopqrstuvw"), text400, text2k, []byte("signed with PKCS#7, see the PK docs (PK\x03 is no signature either)")}
 	cs := &core.Case{Kind: "c19"}
 	var archives uint64
 	run := func(entries []zipEntry, class string) {
@@ -312,7 +313,7 @@ func c19Run(c *core.Ctx) {
 	}
 	_ = rec
 	// (B) lengths 4..7: [Content_Types].xml first, the marker at every position 2..L among fillers
-	fillers := []string{"_rels/.rels", "docProps/app.xml", "customXml/item1.xml", "[trash]/0000.dat", "a.txt", "d/", "media/" + strings.Repeat("n", 300) + ".png"}
+	fillers := []string{"_rels/.rels", "docProps/app.xml", "customXml/item1.xml", "[trash]/0000.dat", "a.txt", "d/", "media/" + strings.Repeat("n", 300) + ".png", "customXml/PKG-INFO"}
 	for L := 4; L <= 7; L++ {
 		fs := fillers
 		if L >= 6 && !c.Thorough() {
@@ -344,6 +345,7 @@ func c19Run(c *core.Ctx) {
 							}
 							run(mk(names, st, body, false), "B:marker-at-every-position")
 						}
+						run(mk(names, p%4, bodies[4], false), "B:marker-at-every-position")
 					}
 				}
 			}
